@@ -11,6 +11,8 @@ executable (the finders use sin/cos); the dispatch name -> record is generated
   F finder_k s<Planet>.<finder> f<y>      -> the period count k
   F pa_k s<Planet>.perihelion_aphelion f<y> T|F    -> k of the first approximation
   F pa_jde s<Planet>.perihelion_aphelion f<y> T|F  -> first approximation `jde`
+  F finder_bounds s<Planet>.<finder>     -> B, centre and radius of `corr` (exact rationals `n/d`; the bounds of Props/C13.lean)
+  F pa_bounds s<Planet>.perihelion_aphelion -> P, Q, delta, bound of Earth's periodic correction
   F epoch_of_jde f<jde>                   -> `Epoch(jde).jde()`
 -/
 namespace Driver
@@ -26,6 +28,8 @@ def findersF : Handler := fun fn a =>
   | "finder_k" => (finderRecord (fname a[0]!)).map fun r => out (GenF.finder_k r a[1]!.f)
   | "pa_k" => (paRecord (fname a[0]!)).map fun r => out (GenF.pa_k r a[1]!.f a[2]!.b)
   | "pa_jde" => (paRecord (fname a[0]!)).map fun r => out (GenF.pa_jde r (GenF.pa_k r a[1]!.f a[2]!.b) a[2]!.b)
+  | "finder_bounds" => (finderRecord (fname a[0]!)).map fun r => out (r.B.toRat, r.corrMid, r.corrRad)
+  | "pa_bounds" => (paRecord (fname a[0]!)).map fun r => out (r.P.toRat, r.Q.toRat, r.delta.toRat, r.corrRad)
   | "epoch_of_jde" => some <| out (GenF.epoch_of_jde a[0]!.f)
   | _ => none
 
